@@ -108,11 +108,16 @@ func (k Keeper) prepareCoinToDistributeForBaseAccount(ctx sdk.Context, source ty
 	coinsToDistribute := sdk.NewDecCoinsFromCoins(coinsToSend...)
 
 	if len(coinsToDistribute) > 0 {
-		err := k.SendCoinsToModuleAccount(ctx, coinsToSend, srcAccount, types.DistributorMainAccount)
+		// the bank subtracts the balance coin by coin and BeginBlock has no transaction to roll back:
+		// run the transfer on a cached context, so that a transfer failing half-way (coins of one
+		// denomination locked in a vesting account) does not destroy the coins subtracted before the error
+		cacheCtx, writeCache := ctx.CacheContext()
+		err := k.SendCoinsToModuleAccount(cacheCtx, coinsToSend, srcAccount, types.DistributorMainAccount)
 		if err != nil {
 			k.Logger(ctx).Error("prepare coin to distribute for internal account error", "error", err.Error())
 			return nil
 		}
+		writeCache()
 	}
 	k.Logger(ctx).Debug("prepare coins to distribute for base account", "subDistr", subDistributorName,
 		"account", source.Id, "coinsToDistribute", coinsToDistribute.String())
